@@ -284,6 +284,61 @@ def chunked_model_stream(res, rng, tier):
             res.model_mismatches.append(dict(case=dict(case, what="unify"), impl=str(unified), model=str(muni)))
 
 
+def sentinel_stream(res, rng, tier, GroupBy):
+    """Partial sums that equal the integer null sentinel: a key chunk (or a thread block) whose rows of one group sum to
+    exactly -2**63, the group having rows elsewhere too, so that the true sum is back in range.  Chunked vs whole keys."""
+    import pyarrow as pa
+    NEG = -2**62
+    for t in range(150 if tier == "quick" else 1500):
+        nch = rng.randint(2, 4)
+        sizes = [rng.randint(1, 3) for _ in range(nch)]
+        which = rng.randrange(nch)
+        sizes[which] = max(sizes[which], 2)
+        n = sum(sizes)
+        labels = [3, 5, 4]                      # not increasing: no monotonic prefix swallows the chunks
+        keys, vals, st = [], [], 0
+        for ci, sz in enumerate(sizes):
+            for j in range(sz):
+                keys.append(rng.choice(labels))
+                vals.append(rng.choice([1, 5, 7, 9]))
+        # the chosen chunk: two rows of group g carry -2**62 each, its other rows of g carry nothing else of g
+        st = sum(sizes[:which])
+        g = rng.choice(labels)
+        idx = list(range(st, st + sizes[which]))
+        i, j = idx[0], idx[1]
+        keys[i] = keys[j] = g; vals[i] = vals[j] = NEG
+        for k in idx[2:]:
+            if keys[k] == g:
+                keys[k] = [x for x in labels if x != g][0]
+        # g also occurs in another chunk, BEFORE or AFTER
+        other = rng.choice([c for c in range(nch) if c != which])
+        keys[sum(sizes[:other])] = g
+        if keys[0] <= min(keys):                 # keep the first key from starting a long increasing prefix
+            keys[0] = max(labels)
+        if sum(1 for a, b in zip(keys, keys[1:]) if a <= b) == len(keys) - 1:
+            continue
+        v = np.array(vals, dtype="int64")
+        karr = np.array(keys, dtype="int64")
+        kchunks, st = [], 0
+        for sz in sizes:
+            kchunks.append(pa.array(karr[st:st + sz])); st += sz
+        case = dict(level="api", stream="sentinel-partial", keys=keys, values=[str(x) for x in vals], key_chunks=sizes)
+        res.note_case(repr(case), True)
+        res.count("stream", "sentinel-partial")
+        for op in ("sum", "mean", "count"):
+            try:
+                whole = getattr(GroupBy(karr), op)(v)
+                chunked = getattr(GroupBy(pa.chunked_array(kchunks)), op)(v)
+                with api.strategy(chunk_threshold=2):
+                    forced = getattr(GroupBy(karr), op)(v)
+                a, b, c_ = whole.to_dict(), chunked.to_dict(), forced.to_dict()
+                if a != b or a != c_:
+                    res.violations.append(dict(sig=dict(level="api", stream="sentinel-partial", op=op, what="differs"), case=case, observed=str(dict(chunked=b, forced=c_)), expected=str(a),
+                                               what=f"{op}: chunk-factorized keys differ from whole keys when a chunk's partial sum equals the integer sentinel"))
+            except Exception as e:  # noqa: BLE001
+                res.violations.append(dict(sig=dict(level="api", stream="sentinel-partial", op=op, what="raised"), case=case, observed=repr(e)[:200], expected="a result", what=f"{op} raised"))
+
+
 def run(res, tier="quick", seed=0, widen=False):
     from groupby_lib import GroupBy
 
@@ -296,6 +351,8 @@ def run(res, tier="quick", seed=0, widen=False):
                 "non-trivial = the strategy actually changed the route (chunked keys / pointers / threads > 1 / > 1 value chunk); distinct = canonical case")
     kernel_stream(res, rng, tier)
     chunked_model_stream(res, rng, tier)
+    from groupby_lib import GroupBy as _GB
+    sentinel_stream(res, rng, tier, _GB)
     routes = {}
     for ci in range(n_cases):
         c = gen_case(rng, tier)
